@@ -11,7 +11,7 @@ TECHNIQUE = ('property-based testing (Hypothesis) of arrival-time sequences on a
              '(no overlap, no empty call, no early call, exactly one call timeout after an isolated burst)')
 RULE = ('cases: up to 10 immediately-available submissions (a quarter of the cases add plain calls from a foreign thread running its own loop) (plain calls, list/tuple/range iterables incl. empty ones) and '
         'wait(cancel=False) on the grid {0, 1/64, T/2, T-1/64, T, T+1/64, 2T, 3T}, T in {1/4, 1}, function duration 0 / T/2 / 2T, '
-        'failing invocations; comparisons within 1/64 s of a tie are skipped and counted. non-trivial: a burst of >=2 arrivals with '
+        'failing invocations; a sixth of the cases are a directed family: the first call fails 2-4 times in a row and a second burst arrives while the function is idle between / after the retries, off the retry grid; comparisons within 1/64 s of a tie are skipped and counted. non-trivial: a burst of >=2 arrivals with '
         'a gap in [T/2, T); distinct by case hash')
 ASSUMPTIONS = ['no forced flush (wait(cancel=True)) in these programs', 'exact ties are not judged (margin 1/64 s)',
                'virtual-time loop faithful (selftest)']
@@ -36,7 +36,33 @@ def strategy(tier):
     flush = B.with_schedule(B.program(nmax=6, kinds=('call', 'map', 'map', 'amap', 'await', 'wait', 'wait'), fail_p=2), 1) \
         .map(lambda c: dict(c, flush=True))
     tied = st.builds(lambda c, tie: dict(c, tie=tie), vt, st.integers(1, 10 ** 6))     # same-instant timers in a seeded order
-    return st.one_of(vt, vt, tied, foreign, flush)
+    return st.one_of(vt, vt, tied, foreign, flush, _after_failures())
+
+
+def _after_failures():
+    """A first burst whose call fails k times in a row (k = 2..4), then a burst that arrives while the function is idle
+    between / after those retries, off the retry grid: it too must be delivered `timeout` after its last arrival (the
+    retained arguments ride along). The random family reaches two consecutive failures followed by an isolated burst
+    in well under 1% of its cases."""
+    from hypothesis import strategies as st
+
+    def build(c, k, off, gaps, j):
+        T, fdur = c['T'], min(c['fdur'], c['T'] / 2)
+        first = [o for o in c['prog'] if o['op'] == 'call' or (o['op'] == 'map' and o['xs'])][:1] \
+            or [{'at': 0.0, 'op': 'call', 'x': 900}]
+        first = [dict(first[0], at=0.0)]
+        first[0].pop('iters', None)
+        # the j-th failed invocation ends at j*(T+fdur); the next retry is due T later
+        t = j * (T + fdur) + off * T
+        late = []
+        for n, g in enumerate(gaps):
+            t += g * T if n else 0.0
+            late.append({'at': t, 'op': 'call', 'x': 901 + n})
+        return dict(c, fdur=fdur, fails=list(range(1, k + 1)), prog=first + late, retry_family=True)
+    base = B.with_schedule(B.program(nmax=1, kinds=('call', 'call', 'map'), immediate_only=True, forced_flush=False, fail_p=0), 1)
+    return st.builds(build, base, st.integers(2, 4), st.sampled_from([0.25, 0.5, 0.75]),
+                     st.lists(st.sampled_from([0.0, 0.25, 0.5, 0.75]), min_size=1, max_size=3),
+                     st.integers(1, 4))
 
 
 def run_case(case):
@@ -67,6 +93,8 @@ def run_case(case):
         cl.append('foreign-arrivals')
     if case.get('flush'):
         cl.append('forced-flush-family')
+    if case.get('retry_family') and sum(1 for c in hist['calls'] if not c['ok']) >= 2:
+        cl.append('burst-after-two-failures')
     if case.get('other'):
         cl.append('second-buffer')
     return Result(viol, nt, cl, H.abbreviate(hist), {'steps': hist['steps'], 'skipped_bursts': skipped})
